@@ -355,6 +355,7 @@ template <class T> static void destroy_bufs(std::vector<BufObj<T> *> &v) {
 }
 void destroy_all(Ctx &c) {
     simrt::heap_op_begin(0);
+    destroy_fmt_slots(c);
     // vectors first or last does not matter for correct code; use creation-independent fixed order
     for (auto *o : c.vecs) { { simrt::SutScope s; o->p()->~vector(); } obj_free(o->mem); delete o; }
     c.vecs.clear();
@@ -581,7 +582,19 @@ void check_all(Ctx &c) {
 }
 
 // ------------------------------------------------------------------ budgets, settle
-uint64_t op_budget(const Ctx &c) { update_fatal_ctx(c); return 200000ull + 4000ull * c.budget_bytes; }
+uint64_t op_budget(const Ctx &c) {
+    update_fatal_ctx(c);
+    // bytes of every pool object that takes part in the operation count towards the budget, whatever the op declared itself
+    uint64_t involved = 0;
+    for (auto *o : c.strs) if (o->role != ROLE_NONE) involved += o->model.size();
+    for (auto *o : c.sss) if (o->role != ROLE_NONE) involved += o->model.size();
+    for (auto *o : c.b8) if (o->role != ROLE_NONE) involved += o->model.size();
+    for (auto *o : c.bw) if (o->role != ROLE_NONE) involved += o->model.size() * 4;
+    for (auto *o : c.b16) if (o->role != ROLE_NONE) involved += o->model.size() * 2;
+    for (auto *o : c.b32) if (o->role != ROLE_NONE) involved += o->model.size() * 4;
+    for (auto *o : c.vecs) if (o->role != ROLE_NONE) for (auto &e : o->model) involved += e.size() + 16;
+    return 200000ull + 4000ull * (c.budget_bytes + 2 * involved);
+}
 
 template <class V, class F> static void each(V &v, F &&f) { for (auto *o : v) f(*o); }
 template <class F> static void each_obj(Ctx &c, F &&f) {
